@@ -4,7 +4,9 @@ Model of `Site.get_resources_as_linkheader` (resource.py:484-508 of the fixed tr
 `WKCResource.render_get` (resource.py:267-329, with `_attribute_values`): the link list with
 hrefs built from the percent-encoded path components (`_quote_for_href`, resource.py:337)
 exactly as the code does, the optional impl-info link, and the evaluation of the RFC 6690
-filters `k=v` / `k=v*` — one filter function per query argument, applied one after the other.
+filters `k=v` / `k=v*` — one filter function per query argument, applied one after the other;
+`Link.__str__` / `LinkFormat.__str__` (util/linkformat.py:25-54 of the fixed tree), which turn the
+link list into the payload.
 -/
 namespace Aiocoap.Apps
 
@@ -121,5 +123,39 @@ no filters; every other item contributes one filter. -/
 def wkcRender (links : List Link) (implInfo : Option Str) (queries : List Str) : List Link :=
   let all := links ++ (match implInfo with | some u => [implInfoLink u] | none => [])
   applyFilters (queries.filterMap splitEq) all
+
+-- serialisation ---------------------------------------------------------------------------
+
+/-- `value.replace("\\", r"\\")` (util/linkformat.py:48): every backslash doubled.  `Str` holds UTF-8
+bytes while Python replaces in a `str`; `\` and `"` are ASCII and never part of a multi-byte
+sequence, so the byte-wise replacement is the same function. -/
+def escBackslash (s : Str) : Str := s.flatMap (fun c => if c = 92 then [92, 92] else [c])
+
+/-- `.replace('"', r"\"")` (util/linkformat.py:48): every double quote preceded by a backslash -/
+def escQuote (s : Str) : Str := s.flatMap (fun c => if c = 34 then [92, 34] else [c])
+
+/-- the inside of the quoted-string `Link.__str__` writes for a value: backslashes first, then
+quotes (the other order would double the backslashes the quotes just got) -/
+def quoteValue (v : Str) : Str := escQuote (escBackslash v)
+
+/-- `str_pair(key, value)` (util/linkformat.py:36-49): `key` alone for a valueless attribute,
+otherwise `key="…"` — always a quoted-string -/
+def attrStr : Str × Option Str → Str
+  | (k, none) => k
+  | (k, some v) => k ++ 61 :: 34 :: (quoteValue v ++ [34])
+
+/-- `Link.__str__` (util/linkformat.py:51-54): `";".join(["<%s>" % href] + pairs)` -/
+def linkStr (l : Link) : Str := 60 :: (l.href ++ 62 :: l.attrs.flatMap (fun a => 59 :: attrStr a))
+
+/-- `LinkFormat.__str__` (util/linkformat.py:25-26): `",".join(str(link) for link in links)`;
+`link_format_to_message` sends its UTF-8 encoding as the payload (resource.py:209) -/
+def linkFormatStr : List Link → Str
+  | [] => []
+  | [l] => linkStr l
+  | l :: m :: rest => linkStr l ++ 44 :: linkFormatStr (m :: rest)
+
+/-- the payload of the `/.well-known/core` answer -/
+def wkcPayload (links : List Link) (implInfo : Option Str) (queries : List Str) : Str :=
+  linkFormatStr (wkcRender links implInfo queries)
 
 end Aiocoap.Apps
